@@ -98,6 +98,14 @@ func (l *natLoop) iterated() []string {
 				if rg, ok := x.Iter.(*ssa.Range); ok {
 					seen["range "+apath(rg.X)] = true
 				}
+			case *ssa.Call:
+				// a parser loop over a cryptobyte.String: names.ReadAnyASN1(...) / ReadASN1 / Skip
+				if g := x.Call.StaticCallee(); g != nil && g.Signature.Recv() != nil && strings.HasSuffix(g.Signature.Recv().Type().String(), "cryptobyte.String") &&
+					(strings.HasPrefix(g.Name(), "Read") || strings.HasPrefix(g.Name(), "Skip") || g.Name() == "CopyBytes") && len(x.Call.Args) > 0 {
+					if _, isLocal := x.Call.Args[0].(*ssa.Alloc); isLocal {
+						seen["consume cryptobyte "+apath(x.Call.Args[0])] = true
+					}
+				}
 			}
 		}
 	}
